@@ -26,7 +26,7 @@ class FloatOpsSuite:
         for _ in range(n):
             mn = rng.choice([0.0, 0.1, 0.3, 1.7, 5.05])
             mx = mn + rng.choice([1.6, 1.7, 10.1, 100.3, 249.9, 250.0])
-            init = round(rng.uniform(mn, mx), rng.choice([1, 2, 3, 17]))
+            init = min(mx, max(0.0, round(rng.uniform(mn, mx), rng.choice([1, 2, 3, 17]))))  # rounding must not leave [0, max]
             trough = rng.random() < 0.3
             ops = []
             cur = init
